@@ -10,6 +10,7 @@ mod graphsim;
 mod hblocks;
 mod mt;
 mod datagen;
+mod e2e;
 mod hdlc;
 mod iosim;
 mod rig;
@@ -41,6 +42,7 @@ fn checks() -> Vec<Box<dyn Check>> {
         Box::new(iosim::FileSinkCheck),
         Box::new(iosim::MappingCheck),
         Box::new(c19::DeriveCheck),
+        Box::new(e2e::E2eCheck),
     ]
 }
 
